@@ -11,6 +11,7 @@ code -> spec  random catalogs (0..200 events, heavy ties) and random call histor
 """
 import calendar
 import datetime
+import os
 import random
 
 from vh.core import MachineryError, guarded, Raised
@@ -265,7 +266,9 @@ def run(chk, replay=None):
         for _ in range(rng.randint(1, 5)):
             oi = rng.randrange(len(objs))
             inplace = rng.random() < 0.5
-            k = rng.choice(['one', 'list', 'list', 'spatial', 'stored'])
+            k = rng.choice(['one', 'list', 'list', 'spatial', 'stored', 'load'])
+            if k == 'load':
+                inplace = False
             idx = [rng.randrange(m) + 1] if k == 'one' else ([] if k == 'spatial' else [rng.randrange(m) + 1 for _ in range(rng.randint(1, 3))])
             strs = [statement(st_attrs[j - 1], st_ops[j - 1], thr[j - 1], use_dt[j - 1], style=t + j + len(calls)) for j in idx]
             o = objs[oi]
@@ -275,20 +278,26 @@ def run(chk, replay=None):
                 r = guarded(o.filter, strs[0], in_place=inplace)
             elif k == 'list':
                 r = guarded(o.filter, strs if rng.random() < 0.5 else tuple(strs), in_place=inplace)
+            elif k == 'load':
+                # the loader's own filtering: the object is written out and read back with apply_filters=True
+                import csep as _csep
+                lp = os.path.join(chk.tmp, 'filt.csv')
+                w_ = guarded(o.write_ascii, lp)
+                r = w_ if isinstance(w_, Raised) else guarded(_csep.load_catalog, lp, apply_filters=True, filters=list(strs))
             else:
                 o.filters = strs
                 r = guarded(o.filter, in_place=inplace)
             chk.count()
             if isinstance(r, Raised):
                 failed = repr(r)
-                calls.append({'k': 'list' if k == 'stored' else k, 'idx': idx, 'inplace': inplace, 'obj': oi + 1, 'ret': [-1],
+                calls.append({'k': 'list' if k in ('stored', 'load') else k, 'idx': idx, 'inplace': inplace, 'obj': oi + 1, 'ret': [-1],
                               'objs': [ids_of(x) for x in objs]})
                 break
             if not inplace:
                 objs.append(r)
             elif r is not o:
                 objs[oi] = r
-            calls.append({'k': 'list' if k == 'stored' else k, 'idx': idx, 'inplace': inplace, 'obj': oi + 1, 'ret': ids_of(r),
+            calls.append({'k': 'list' if k in ('stored', 'load') else k, 'idx': idx, 'inplace': inplace, 'obj': oi + 1, 'ret': ids_of(r),
                           'objs': [ids_of(x) for x in objs]})
         traces.append({'stmts': st_ops, 'events': events, 'calls': calls})
         metas.append({'n': n, 'region': region_kind, 'statements': [statement(st_attrs[j], st_ops[j], thr[j], use_dt[j]) for j in range(m)],
